@@ -170,7 +170,7 @@ func c02Core() (out []struct {
 	// alien chunks
 	t1 := []ref.EncEv{ev(0, 0x90, 60, 1), eot(10)}
 	t2 := []ref.EncEv{ev(3, 0xC1, 5), rs(ev(0, 0xC1, 6)), eot(0)}
-	for _, size := range []int{0, 1, 5, 300} {
+	for _, size := range []int{0, 1, 5, 300, 4095, 4096, 4097, 70001} {
 		d := make([]byte, size)
 		for i := range d {
 			d[i] = byte(0x4D + i)
